@@ -148,6 +148,7 @@ class Check:
             self.problems.append("engine run failed for %s (%s): rc=%d %s" % (pkg_pattern, regex, rc, txt[-800:]))
             return None
         rep = json.load(open(out))
+        rep["Harnesses"] = rep.get("Harnesses") or []
         if not rep["Harnesses"]:
             self.problems.append("no harness matched %s in %s" % (regex, pkg_pattern))
         ctx = dict(moddir=moddir, pkg_pattern=pkg_pattern, pkgdir=pkgdir, pkgname=pkgname, test_overlays=test_overlays, params=params, label=label or pkg_pattern, gen=gen)
@@ -214,7 +215,7 @@ class Check:
                 continue
             out = json.load(open(op))
             if kind == "model":
-                ev = h["ModelEvents"][i] or []
+                ev = [e for e in (h["ModelEvents"][i] or []) if e != "assert:alloc-bounded-by-input"]  # engine-side implicit obligation
                 obs = h["ModelObs"][i] or []
                 nev = out.get("events") or []
                 nobs = out.get("observed") or []
@@ -248,7 +249,7 @@ class Check:
                 key = "%s/%s/%s/%s" % (ctx["label"], h["Name"], v["kind"], v["id"])
                 if v["kind"] == "panic":
                     # panics are identified by message class and source file (line numbers of generated code may shift)
-                    key += ":%s@%s" % (re.sub(r"[^A-Za-z ]+", "", v.get("msg", ""))[:60].strip(), (v.get("site", "") or "").split(":")[0])
+                    key += ":%s@%s" % (re.sub(r"[^A-Za-z ]+", "", v.get("msg", ""))[:90].strip(), (v.get("site", "") or "").split(":")[0])
                 if not reproduced:
                     self.mismatch.append("%s: counterexample for %s did not reproduce natively (inputs %s; native outcome %s)" % (h["Name"], v["id"], fmt_inputs(v.get("inputs")), json.dumps(out)[:300]))
                     continue
